@@ -1163,3 +1163,276 @@ pub(crate) fn tunnel_encap_api_val(a: &api::TunnelEncapAttribute) -> Val {
     };
     Val::L(a.tlvs.iter().map(|t| Val::L(vec![Val::n(t.r#type), Val::L(t.tlvs.iter().map(sub).collect())])).collect())
 }
+
+// LsAttribute (kind 9, w = 2): [node, link, prefix, peer segment, extras]
+//   node = [] | [name, flags ([] | six 0/1), router id, router id v6, isis area, opaque, SR capabilities ([] | [v4, v6, [[begin, end] ...]]),
+//                SR algorithms, SR local block ([] | [[begin, end] ...])]
+//   link = [] | [name, local id, local id v6, remote id, remote id v6, admin group, TE metric, IGP metric, opaque, bandwidth bits, reservable bits,
+//                [unreserved bits ...], adjacency SID, [srlg ...], End.X ([] | [behaviour, flags, algorithm, weight, [sid text ...], structure ([] | four lengths)]),
+//                delay anomalous, delay, min/max anomalous, min, max, variation]
+//   prefix = [] | [IGP flags ([] | four 0/1), opaque, prefix SID, [[algorithm, flags, sid] ...]]
+//   peer segment = [] | [node SID, adjacency SID, set SID], each [] | [flags ([] | four 0/1), weight, sid]
+//   extras: 0 none | 1 an SRv6 SID part | 2 a flex-algo definition | 3 a flex-algo prefix metric (parts the converter has no encoding for)
+fn ls_ranges_of(v: &Val) -> Vec<api::LsSrRange> {
+    v.list().iter().map(|r| api::LsSrRange { begin: r.at(0).u32(), end: r.at(1).u32() }).collect()
+}
+fn ls_ranges_val(r: &[api::LsSrRange]) -> Val {
+    Val::L(r.iter().map(|r| Val::L(vec![Val::n(r.begin), Val::n(r.end)])).collect())
+}
+fn ls_peer_sid_of(v: &Val) -> Option<api::LsBgpPeerSegmentSid> {
+    let l = v.list();
+    if l.is_empty() {
+        return None;
+    }
+    let f = l[0].list();
+    Some(api::LsBgpPeerSegmentSid {
+        flags: if f.is_empty() {
+            None
+        } else {
+            Some(api::LsBgpPeerSegmentSidFlags { value: f[0].bool(), local: f[1].bool(), backup: f[2].bool(), persistent: f[3].bool() })
+        },
+        weight: l[1].u32(),
+        sid: l[2].u32(),
+    })
+}
+fn ls_peer_sid_val(s: &Option<api::LsBgpPeerSegmentSid>) -> Val {
+    match s {
+        None => Val::L(vec![]),
+        Some(s) => Val::L(vec![
+            match &s.flags {
+                None => Val::L(vec![]),
+                Some(f) => Val::L(vec![Val::b(f.value), Val::b(f.local), Val::b(f.backup), Val::b(f.persistent)]),
+            },
+            Val::n(s.weight),
+            Val::n(s.sid),
+        ]),
+    }
+}
+
+pub(crate) fn ls_attr_api_of(v: &Val) -> api::LsAttribute {
+    let node = {
+        let l = v.at(0).list();
+        if l.is_empty() {
+            None
+        } else {
+            let f = l[1].list();
+            let c = l[6].list();
+            let b = l[8].list();
+            Some(api::LsAttributeNode {
+                name: s_of(&l[0]),
+                flags: if f.is_empty() {
+                    None
+                } else {
+                    Some(api::LsNodeFlags {
+                        overload: f[0].bool(),
+                        attached: f[1].bool(),
+                        external: f[2].bool(),
+                        abr: f[3].bool(),
+                        router: f[4].bool(),
+                        v6: f[5].bool(),
+                    })
+                },
+                local_router_id: s_of(&l[2]),
+                local_router_id_v6: s_of(&l[3]),
+                isis_area: l[4].bytes(),
+                opaque: l[5].bytes(),
+                sr_capabilities: if c.is_empty() {
+                    None
+                } else {
+                    Some(api::LsSrCapabilities { ipv4_supported: c[0].bool(), ipv6_supported: c[1].bool(), ranges: ls_ranges_of(&c[2]) })
+                },
+                sr_algorithms: l[7].bytes(),
+                sr_local_block: if b.is_empty() { None } else { Some(api::LsSrLocalBlock { ranges: ls_ranges_of(&b[0]) }) },
+                flex_algo_defs: if v.at(4).int() == 2 { vec![api::LsAttributeFlexAlgoDef::default()] } else { vec![] },
+            })
+        }
+    };
+    let link = {
+        let l = v.at(1).list();
+        if l.is_empty() {
+            None
+        } else {
+            let x = l[14].list();
+            Some(api::LsAttributeLink {
+                name: s_of(&l[0]),
+                local_router_id: s_of(&l[1]),
+                local_router_id_v6: s_of(&l[2]),
+                remote_router_id: s_of(&l[3]),
+                remote_router_id_v6: s_of(&l[4]),
+                admin_group: l[5].u32(),
+                default_te_metric: l[6].u32(),
+                igp_metric: l[7].u32(),
+                opaque: l[8].bytes(),
+                bandwidth: f32::from_bits(l[9].u32()),
+                reservable_bandwidth: f32::from_bits(l[10].u32()),
+                unreserved_bandwidth: l[11].list().iter().map(|b| f32::from_bits(b.u32())).collect(),
+                sr_adjacency_sid: l[12].u32(),
+                srlgs: l[13].list().iter().map(|s| s.u32()).collect(),
+                srv6_end_x_sid: if x.is_empty() {
+                    None
+                } else {
+                    let ss = x[5].list();
+                    Some(api::LsSrv6EndXsid {
+                        endpoint_behavior: x[0].u32(),
+                        flags: x[1].u32(),
+                        algorithm: x[2].u32(),
+                        weight: x[3].u32(),
+                        reserved: 0,
+                        sids: x[4].list().iter().map(s_of).collect(),
+                        srv6_sid_structure: if ss.is_empty() {
+                            None
+                        } else {
+                            Some(api::LsSrv6SidStructure {
+                                local_block: ss[0].u32(),
+                                local_node: ss[1].u32(),
+                                local_func: ss[2].u32(),
+                                local_arg: ss[3].u32(),
+                            })
+                        },
+                    })
+                },
+                unidirectional_link_delay_anomalous: l[15].bool(),
+                unidirectional_link_delay: l[16].u32(),
+                min_max_unidirectional_link_delay_anomalous: l[17].bool(),
+                min_unidirectional_link_delay: l[18].u32(),
+                max_unidirectional_link_delay: l[19].u32(),
+                unidirectional_delay_variation: l[20].u32(),
+            })
+        }
+    };
+    let prefix = {
+        let l = v.at(2).list();
+        if l.is_empty() {
+            None
+        } else {
+            let f = l[0].list();
+            Some(api::LsAttributePrefix {
+                igp_flags: if f.is_empty() {
+                    None
+                } else {
+                    Some(api::LsIgpFlags { down: f[0].bool(), no_unicast: f[1].bool(), local_address: f[2].bool(), propagate_nssa: f[3].bool() })
+                },
+                opaque: l[1].bytes(),
+                sr_prefix_sid: l[2].u32(),
+                sr_prefix_sids: l[3]
+                    .list()
+                    .iter()
+                    .map(|p| api::LsAttributePrefixSid { algorithm: p.at(0).u32(), flags: p.at(1).u32(), sid: p.at(2).u32() })
+                    .collect(),
+                fad_prefix_metrics: if v.at(4).int() == 3 { vec![api::LsAttributeFadPrefixMetric::default()] } else { vec![] },
+            })
+        }
+    };
+    let bgp_peer_segment = {
+        let l = v.at(3).list();
+        if l.is_empty() {
+            None
+        } else {
+            Some(api::LsAttributeBgpPeerSegment {
+                bgp_peer_node_sid: ls_peer_sid_of(&l[0]),
+                bgp_peer_adjacency_sid: ls_peer_sid_of(&l[1]),
+                bgp_peer_set_sid: ls_peer_sid_of(&l[2]),
+            })
+        }
+    };
+    api::LsAttribute {
+        node,
+        link,
+        prefix,
+        bgp_peer_segment,
+        srv6_sid: if v.at(4).int() == 1 {
+            Some(api::LsAttributeSrv6Sid {
+                srv6_sid_structure: Some(api::LsSrv6SidStructure { local_block: 40, local_node: 24, local_func: 16, local_arg: 0 }),
+                ..Default::default()
+            })
+        } else {
+            None
+        },
+    }
+}
+
+pub(crate) fn ls_attr_api_val(a: &api::LsAttribute) -> Val {
+    let node = match &a.node {
+        None => Val::L(vec![]),
+        Some(n) => Val::L(vec![
+            s_val(&n.name),
+            match &n.flags {
+                None => Val::L(vec![]),
+                Some(f) => Val::L(vec![Val::b(f.overload), Val::b(f.attached), Val::b(f.external), Val::b(f.abr), Val::b(f.router), Val::b(f.v6)]),
+            },
+            s_val(&n.local_router_id),
+            s_val(&n.local_router_id_v6),
+            Val::from_bytes(&n.isis_area),
+            Val::from_bytes(&n.opaque),
+            match &n.sr_capabilities {
+                None => Val::L(vec![]),
+                Some(c) => Val::L(vec![Val::b(c.ipv4_supported), Val::b(c.ipv6_supported), ls_ranges_val(&c.ranges)]),
+            },
+            Val::from_bytes(&n.sr_algorithms),
+            match &n.sr_local_block {
+                None => Val::L(vec![]),
+                Some(b) => Val::L(vec![ls_ranges_val(&b.ranges)]),
+            },
+        ]),
+    };
+    let link = match &a.link {
+        None => Val::L(vec![]),
+        Some(l) => Val::L(vec![
+            s_val(&l.name),
+            s_val(&l.local_router_id),
+            s_val(&l.local_router_id_v6),
+            s_val(&l.remote_router_id),
+            s_val(&l.remote_router_id_v6),
+            Val::n(l.admin_group),
+            Val::n(l.default_te_metric),
+            Val::n(l.igp_metric),
+            Val::from_bytes(&l.opaque),
+            Val::n(l.bandwidth.to_bits()),
+            Val::n(l.reservable_bandwidth.to_bits()),
+            Val::L(l.unreserved_bandwidth.iter().map(|b| Val::n(b.to_bits())).collect()),
+            Val::n(l.sr_adjacency_sid),
+            Val::L(l.srlgs.iter().map(|s| Val::n(*s)).collect()),
+            match &l.srv6_end_x_sid {
+                None => Val::L(vec![]),
+                Some(x) => Val::L(vec![
+                    Val::n(x.endpoint_behavior),
+                    Val::n(x.flags),
+                    Val::n(x.algorithm),
+                    Val::n(x.weight),
+                    Val::L(x.sids.iter().map(|s| s_val(s)).collect()),
+                    match &x.srv6_sid_structure {
+                        None => Val::L(vec![]),
+                        Some(s) => Val::L(vec![Val::n(s.local_block), Val::n(s.local_node), Val::n(s.local_func), Val::n(s.local_arg)]),
+                    },
+                ]),
+            },
+            Val::b(l.unidirectional_link_delay_anomalous),
+            Val::n(l.unidirectional_link_delay),
+            Val::b(l.min_max_unidirectional_link_delay_anomalous),
+            Val::n(l.min_unidirectional_link_delay),
+            Val::n(l.max_unidirectional_link_delay),
+            Val::n(l.unidirectional_delay_variation),
+        ]),
+    };
+    let prefix = match &a.prefix {
+        None => Val::L(vec![]),
+        Some(p) => Val::L(vec![
+            match &p.igp_flags {
+                None => Val::L(vec![]),
+                Some(f) => Val::L(vec![Val::b(f.down), Val::b(f.no_unicast), Val::b(f.local_address), Val::b(f.propagate_nssa)]),
+            },
+            Val::from_bytes(&p.opaque),
+            Val::n(p.sr_prefix_sid),
+            Val::L(p.sr_prefix_sids.iter().map(|s| Val::L(vec![Val::n(s.algorithm), Val::n(s.flags), Val::n(s.sid)])).collect()),
+        ]),
+    };
+    let bps = match &a.bgp_peer_segment {
+        None => Val::L(vec![]),
+        Some(b) => Val::L(vec![
+            ls_peer_sid_val(&b.bgp_peer_node_sid),
+            ls_peer_sid_val(&b.bgp_peer_adjacency_sid),
+            ls_peer_sid_val(&b.bgp_peer_set_sid),
+        ]),
+    };
+    Val::L(vec![node, link, prefix, bps, Val::b(a.srv6_sid.is_some())])
+}
